@@ -43,6 +43,10 @@ class CliScenario:
     def on_attr(self, obj: V, attr: str, node: ast.AST, st: State) -> Optional[V]:
         if isinstance(obj, R) and obj.kind in ("opaque", "transformed", "module") and attr not in obj.fields:
             return R("opaque", of=obj, attr=K(attr))
+        if isinstance(obj, S) and obj.name == "self" and self.fi.cls is not None and self.repo.method(self.fi.cls, attr) is not None:
+            # a method of the receiver taken as a VALUE (put into a tuple of steps, handed to reduce/map): a bound method
+            # (the callee of `self.m(...)` is not looked up through this hook)
+            return R("boundmethod", name=K(attr), self=obj, cls=K(self.fi.cls.fq))
         if isinstance(obj, S) and (obj.name == "self" or obj.name.startswith("self.")):
             return S(obj.name + "." + attr)
         return RepoInterp.on_attr(self.ri, obj, attr, node, st)
